@@ -144,7 +144,8 @@ type Case struct {
 	Cfg      Cfg    `json:"cfg"`
 	StartSeq uint16 `json:"start_seq"`
 	Kind     string `json:"kind"` // seq | place
-	Steps    []Step `json:"steps"`
+	Steps    []Step `json:"steps,omitempty"`
+	Gen      *Gen   `json:"gen,omitempty"`
 }
 
 // ---------------------------------------------------------------- records
@@ -656,7 +657,7 @@ func (w *world) barrier(wait []*reader) int {
 	for ti := range w.targets {
 		n := 1
 		for _, r := range wait {
-			if r.tr == tUDP && r.gap[ti] {
+			if r.tr == tUDP && (r.gap[ti] || (r.have[ti] && r.next[ti] != w.seq[ti])) {
 				n = 66
 			}
 		}
@@ -831,6 +832,7 @@ func runCase(cs Case) (res Result) {
 			res.HarnessErr = fmt.Sprintf("harness panic: %v", r)
 		}
 	}()
+	cs = expand(cs)
 	w, err := newWorld(cs)
 	if w != nil {
 		defer w.close()
